@@ -122,6 +122,7 @@ func New(hydrunInterface hydraidego.Hydraidego) Hydrex {
 // For each domain (which can be any unique identifier, not limited to DNS):
 // - Keys not present in the new `items` map but existing in current storage will be deleted.
 // - New keys not yet present will be added to both the core data and their respective indexes.
+// - Keys that stay but carry a different value get the new value (their creation time is kept).
 // - Unchanged keys will remain intact.
 //
 // Requirements:
@@ -180,7 +181,17 @@ func (h *hydrex) Save(ctx context.Context, indexName string, domain string, item
 
 	// iterating through the new items
 	for key, data := range items {
-		if _, ok := existingCoreData[key]; !ok {
+		existing, ok := existingCoreData[key]
+		if ok && existing.Value != data.Value {
+			// the key stays (its index entry is already there), only its value changed:
+			// store the new value and keep the original creation time
+			itemsForSave = append(itemsForSave, &CoreData{
+				Key:       key,
+				Value:     data.Value,
+				CreatedAt: existing.CreatedAt,
+			})
+		}
+		if !ok {
 
 			// array for saving new items
 			itemsForSave = append(itemsForSave, &CoreData{
